@@ -43,10 +43,21 @@ def banRun (regTags regFilters : List Bytes) : BanState → List BanOp → BanSt
 
 /-! ### the template cache (`FromCache`, `CleanCache`, `Debug`) -/
 
+/-- a loader behind the first one (`AddLoader`): it resolves names under its own base directory -/
+structure Loader where
+  base  : Bytes := []
+  files : List (Bytes × Bytes) := []
+  deriving DecidableEq, Repr
+
+/-- such a loader's `Abs("", name)`: a rooted name as it is, any other under the base directory -/
+def Loader.abs (l : Loader) (n : Bytes) : Bytes :=
+  if l.base = [] then Path.abs [] n else if Path.isAbs n then Path.clean n else Path.join2 l.base n
+
 structure CacheState where
   cache   : List (Bytes × Nat) := []      -- templateCache: resolved name ↦ template identity
   debug   : Bool := false
-  files   : List (Bytes × Bytes) := []    -- what the loader serves (mutable: "the file's content changed")
+  files   : List (Bytes × Bytes) := []    -- what the first loader serves (mutable: "the file's content changed")
+  more    : List Loader := []             -- the loaders added behind it, in order
   nextId  : Nat := 0                      -- identities of templates created so far
   fetches : List Bytes := []              -- every loader Get, in order
   deriving DecidableEq, Repr
@@ -57,6 +68,8 @@ inductive CacheOp
   | clean (ns : List Bytes)
   | setDebug (b : Bool)
   | setFile (n : Bytes) (content : Option Bytes)     -- none = delete
+  | addLoader (base : Bytes)                         -- `set.AddLoader(l)`
+  | setFileIn (i : Nat) (n : Bytes) (content : Option Bytes)   -- in the i-th added loader
   deriving DecidableEq, Repr
 
 /-- outcome of one call: the template identity returned, or an error -/
@@ -70,11 +83,27 @@ inductive CacheRes
     file that fails to compile) -/
 def compiles (content : Bytes) : Bool := !(Bytes.contains content b!"{% if %}")
 
-/-- `set.FromFile(name)`: one fetch; a fresh template identity on success -/
+/-- `resolveTemplate`'s loop over the added loaders: each is asked for the name as *it* resolves
+    it; the first that has it wins; returns the content and the names asked for, in order -/
+def tryMore (name : Bytes) : List Loader → Option Bytes × List Bytes
+  | [] => (none, [])
+  | l :: rest =>
+    match l.files.lookup (l.abs name) with
+    | some c => (some c, [l.abs name])
+    | none => let r := tryMore name rest; (r.1, l.abs name :: r.2)
+
+/-- `resolveTemplate(nil, name)`: the first loader, then the added ones -/
+def findFile (s : CacheState) (name : Bytes) : Option Bytes × List Bytes :=
+  match s.files.lookup (Path.abs [] name) with
+  | some c => (some c, [Path.abs [] name])
+  | none => let r := tryMore name s.more; (r.1, Path.abs [] name :: r.2)
+
+/-- `set.FromFile(name)` / `set.fromFileFor(nil, name)`: the loaders are asked in order; a fresh
+    template identity on success -/
 def loadFile (s : CacheState) (name : Bytes) : CacheState × Option Nat :=
-  let key := Path.abs [] name
-  let s1 := { s with fetches := s.fetches ++ [key] }
-  match s.files.lookup key with
+  let r := findFile s name
+  let s1 := { s with fetches := s.fetches ++ r.2 }
+  match r.1 with
   | none => (s1, none)
   | some c => if compiles c then ({ s1 with nextId := s1.nextId + 1 }, some s1.nextId) else (s1, none)
 
@@ -85,11 +114,12 @@ def cacheStep (s : CacheState) : CacheOp → CacheState × CacheRes
       | (s', some id) => (s', .tpl id)
       | (s', none) => (s', .err)
     else
+      -- the key is the first loader's resolution; on a miss every loader resolves the given name
       let key := Path.abs [] n
       match s.cache.lookup key with
       | some id => (s, .tpl id)
       | none =>
-        match loadFile s key with
+        match loadFile s n with
         | (s', some id) => ({ s' with cache := s'.cache ++ [(key, id)] }, .tpl id)
         | (s', none) => (s', .err)
   | .cleanAll => ({ s with cache := [] }, .unit)
@@ -101,6 +131,14 @@ def cacheStep (s : CacheState) : CacheOp → CacheState × CacheRes
     let key := Path.abs [] n
     let fs := s.files.filter (·.1 != key)
     ({ s with files := match c with | some c => fs ++ [(key, c)] | none => fs }, .unit)
+  | .addLoader base => ({ s with more := s.more ++ [{ base := base }] }, .unit)
+  | .setFileIn i n c =>
+    ({ s with more := s.more.mapIdx fun j l =>
+        if j = i then
+          let key := l.abs n
+          let fs := l.files.filter (·.1 != key)
+          { l with files := match c with | some c => fs ++ [(key, c)] | none => fs }
+        else l }, .unit)
 
 def cacheRun : CacheState → List CacheOp → CacheState × List CacheRes
   | s, [] => (s, [])
